@@ -195,12 +195,12 @@ impl Node {
 
         // Step 2. Let selectedcontent be the first selectedcontent element descendant of select in tree order
         // if any such element exists; otherwise return null.
-        // FIXME: This does not visit the nodes in tree order
-        let mut remaining = VecDeque::default();
-        remaining.extend(self.children.borrow().iter().cloned());
+        // Depth-first with an explicit stack: children are pushed in reverse so that nodes are
+        // visited in tree order.
+        let mut remaining: Vec<Rc<Self>> = self.children.borrow().iter().rev().cloned().collect();
         let mut selectedcontent = None;
-        while let Some(node) = remaining.pop_front() {
-            remaining.extend(node.children.borrow().iter().cloned());
+        while let Some(node) = remaining.pop() {
+            remaining.extend(node.children.borrow().iter().rev().cloned());
 
             let NodeData::Element { name, .. } = &node.data else {
                 continue;
